@@ -78,6 +78,7 @@ class Explorer:
         self.value_oracle = value_oracle
         self.max_paths = max_paths
         self.outcomes: List[Outcome] = []
+        self.envs: List[Dict[str, Any]] = []  # environment of each outcome, same order
 
     # ------------------------------------------------------------ values
     def value(self, e: Optional[ast.expr], env: Dict[str, Any]) -> Any:
@@ -164,8 +165,10 @@ class Explorer:
     # -------------------------------------------------------- statements
     def run(self, env: Dict[str, Any]) -> List[Outcome]:
         self.outcomes = []
+        self.envs = []
         for env2 in self.block(list(self.fn.node.body), dict(env)):
             self.outcomes.append(("fall", None, None))
+            self.envs.append(env2)
         return self.outcomes
 
     def block(self, body: List[ast.stmt], env: Dict[str, Any]) -> List[Dict[str, Any]]:
@@ -214,9 +217,11 @@ class Explorer:
             return [env]
         if isinstance(s, ast.Return):
             self.outcomes.append(("return", s, self.value(s.value, env)))
+            self.envs.append(env)
             return []
         if isinstance(s, ast.Raise):
             self.outcomes.append(("raise", s, None))
+            self.envs.append(env)
             return []
         if isinstance(s, ast.If):
             t = self.test(s.test, env)
@@ -228,6 +233,23 @@ class Explorer:
             return out
         if isinstance(s, (ast.Pass, ast.Import, ast.ImportFrom, ast.Global, ast.Nonlocal, ast.Assert, ast.FunctionDef, ast.AsyncFunctionDef)):
             return [env]
+        if isinstance(s, ast.Try) and not s.finalbody:
+            # the body either completes (then `else`) or is left for one of the handlers; a handler starts
+            # from the state before the `try` with everything the body assigns unknown.  `$handlers` in the
+            # environment records which handlers a path went through.
+            out2: List[Dict[str, Any]] = []
+            for e in self.block(s.body, dict(env)):
+                out2.extend(self.block(s.orelse, e))
+            for h in s.handlers:
+                eh = dict(env)
+                for n in ast.walk(ast.Module(body=s.body, type_ignores=[])):
+                    if isinstance(n, ast.Name) and isinstance(n.ctx, ast.Store):
+                        eh[n.id] = UNKNOWN
+                if h.name:
+                    eh[h.name] = UNKNOWN
+                eh["$handlers"] = tuple(eh.get("$handlers", ())) + (h,)
+                out2.extend(self.block(h.body, eh))
+            return out2
         if isinstance(s, (ast.For, ast.AsyncFor, ast.While, ast.With, ast.AsyncWith, ast.Try)):
             # not followed: every name (and text accumulator) the statement may assign becomes unknown;
             # a `return` inside it is reported with an unknown value
@@ -240,8 +262,10 @@ class Explorer:
                         env[n.func.value.id] = UNKNOWN
                 elif isinstance(n, ast.Return):
                     self.outcomes.append(("return", n, UNKNOWN))
+                    self.envs.append(env)
                 elif isinstance(n, ast.Raise):
                     self.outcomes.append(("raise", n, None))
+                    self.envs.append(env)
             return [env]
         if isinstance(s, (ast.Continue, ast.Break)):
             return []
